@@ -21,7 +21,8 @@ from . import common, confgen, c14
 PROP = "C17"
 RULE = ("cases: plog models of every class (integer leaves, explicit and generated ids, DAG sharing), configurators with defaults, and their "
         "configured polyhedra; to_b64 -> from_b64. non-trivial: the model has defaults or integer leaves or depth>=2 (every configured polyhedron "
-        "counts); distinct by recipe digest")
+        "counts); distinct by recipe digest"
+        ' Also: models returned by assume/reduce/negate, configurators packed after use, polyhedra with custom row index, dtype and coefficients beyond 32 bits, a second unpack after the first copy was changed in place.')
 BUDGET = {"quick": (12, 220, 90), "thorough": (16, 2200, 1200)}
 PYTEST = True     # thorough tier also runs the repository's own tests under these monitors
 MANDATORY = ["judged:proposition:structure", "judged:proposition:text", "judged:proposition:queries", "judged:polyhedron:structure",
